@@ -21,10 +21,10 @@
 (***************************************************************************)
 EXTENDS Generator, Json, IOUtils, TLCExt
 Traces == ndJsonDeserialize(IOEnv.CASES)
-VARIABLES tid, l, mst, ret, syms, dead, mok
-vars == <<tid, l, mst, ret, syms, dead, mok>>
+VARIABLES tid, l, mst, ret, syms, dead, mok, tcl     \* tcl: the tracker's claim list as last logged
+vars == <<tid, l, mst, ret, syms, dead, mok, tcl>>
 
-Init == tid = 0 /\ l = 0 /\ mst = InitState("gamma") /\ ret = 0 /\ syms = <<>> /\ dead = FALSE /\ mok = TRUE
+Init == tid = 0 /\ l = 0 /\ mst = InitState("gamma") /\ ret = 0 /\ syms = <<>> /\ dead = FALSE /\ mok = TRUE /\ tcl = <<>>
 
 ExpSeq(s) == [k \in 1..Len(s) |-> Expand(s[k])]
 RECURSIVE SymsOf(_)
@@ -40,7 +40,7 @@ ImgE(e, sy) == [k |-> e.k, p |-> ImgT(e.p, sy)]
 Start ==
   /\ tid = 0
   /\ \E t \in 1..Len(Traces) :
-       /\ tid' = t /\ l' = 1 /\ ret' = 0 /\ syms' = <<>> /\ dead' = FALSE /\ mok' = TRUE
+       /\ tid' = t /\ l' = 1 /\ ret' = 0 /\ syms' = <<>> /\ dead' = FALSE /\ mok' = TRUE /\ tcl' = <<>>
        /\ mst' = [InitState(Traces[t].phase) EXCEPT
                     !.claims = IF Traces[t].phase = "proof" THEN Reverse(ExpSeq(Traces[t].claims)) ELSE <<>>]
 
@@ -77,15 +77,16 @@ Event ==
          ret2 == IF IsSw(e.m) THEN 0 ELSE IF IsPub(e.m) /\ e.out = "ok" THEN ret + 1 ELSE ret
          ms == m0.st
          nm == Len(ms.memory) - Len(mst.memory)
+         tc == IF e.cc THEN e.claims ELSE tcl
          clause ==
            IF e.out # "ok" THEN (IF e.bytes # <<>> THEN "bytes-on-raise" ELSE "")
            ELSE IF ~sx.ok THEN "symtab"
            ELSE IF ~m0.ok THEN "machine-rejects"
            ELSE IF e.len # Len(ms.stack) + ret2 THEN "stack-length"
-           ELSE IF Len(ms.stack) > 0 /\ ~IsPub(e.m) /\ ImgE(e.top, sx.sy) # ms.stack[Len(ms.stack)] THEN "top"
+           ELSE IF Len(ms.stack) > 0 /\ ~IsPub(e.m) /\ e.top.k # "skip" /\ ImgE(e.top, sx.sy) # ms.stack[Len(ms.stack)] THEN "top"
            ELSE IF e.memlen # Len(ms.memory) \/ Len(e.mem) # nm THEN "memory"
            ELSE IF \E k \in 1..nm : ImgE(e.mem[k], sx.sy) # ms.memory[Len(mst.memory) + k] THEN "memory"
-           ELSE IF ms.phase = "proof" /\ [k \in 1..Len(e.claims) |-> ImgT(e.claims[k], sx.sy)] # Reverse(ms.claims) THEN "claims"
+           ELSE IF ms.phase = "proof" /\ [k \in 1..Len(tc) |-> ImgT(tc[k], sx.sy)] # Reverse(ms.claims) THEN "claims"
            ELSE ""
          reason == IF clause = "machine-rejects" THEN Reason(mst, e.bytes, m0)
                    ELSE IF clause \in {"top", "stack-length"} /\ ret > 0 THEN "retained-entry-consumed" ELSE "-"
@@ -93,7 +94,7 @@ Event ==
         /\ mst' = ms /\ ret' = ret2 /\ syms' = sx.sy
         /\ dead' = (e.out = "ok" /\ ~m0.ok)
         /\ mok' = (mok /\ m0.ok)
-        /\ l' = l + 1 /\ tid' = tid
+        /\ l' = l + 1 /\ tid' = tid /\ tcl' = tc
 
 \* end of trace: module-level clauses (only for traces that carry a final record)
 Finish ==
@@ -117,7 +118,7 @@ Finish ==
         /\ IF c3 = "" THEN TRUE ELSE PrintT(<<"FAIL", tid, l, c3, "-">>)
         /\ PrintT(<<"DONE", tid, l - 1>>)
   /\ l' = Len(Traces[tid].events) + 2
-  /\ UNCHANGED <<tid, mst, ret, syms, dead, mok>>
+  /\ UNCHANGED <<tid, mst, ret, syms, dead, mok, tcl>>
 
 Next == Start \/ Event \/ Finish
 Spec == Init /\ [][Next]_vars
